@@ -44,6 +44,25 @@ void h_slip_spec(void)
   VERIF_CANARY();
 }
 
+void h_source_get_octet(void)
+{
+  IN(_Bool, in_kind) IN(uint8_t, in_d0)
+  SL_SOURCE_STATE(4)
+  SL_MAKE_SOURCE(src, in_kind)
+  unsigned char d = in_d0;
+  source_get_octet(&src, &d);
+  VERIF_CANARY();
+}
+
+void h_sink_put_octet(void)
+{
+  IN(_Bool, in_kind) IN(uint8_t, in_d)
+  SL_SINK_STATE()
+  SL_MAKE_SINK(snk, in_kind)
+  sink_put_octet(&snk, in_d);
+  VERIF_CANARY();
+}
+
 void h_rfc1055_context_init(void)
 {
   IN(uint32_t, in_flags) IN(int, in_s0) IN(uint32_t, in_f0)
@@ -171,6 +190,9 @@ void h_rfc1055_decode(void)
   IN(_Bool, in_fm) IN(size_t, in_n) IN(size_t, in_g)
   ASSUME(in_state >= 0 && in_state <= 2);
   ASSUME(in_n <= SL_NMAX && in_g <= SL_NMAX);
+#ifdef SL_DECODE_ONLY_FM
+  ASSUME(in_fm == SL_DECODE_ONLY_FM);
+#endif
   SL_SINK_STATE()
   SL_SOURCE_STATE(3 * SL_NMAX + 8)
   IN_MEM(in_pay, in_n)
